@@ -47,7 +47,8 @@ def transmissions(world, tok):
 def judge(case, run, world, callers):
     vio = []
     kind = case["kind"]
-    what = f"{kind}/{case['context']}/{case['shape']} retries={case.get('retries', 0)} faults={case.get('faults')} h2={case.get('h2', {}).get('script')}"
+    what = (f"{kind}/{case['context']}/{case['shape']} retries={case.get('retries', 0)} faults={case.get('faults')} h2={case.get('h2', {}).get('script')}"
+            + (" schedule=reads-first" if case.get("policy") else ""))
     base = dict(conn=kind.split("-")[0] + ("-h2" if is_h2(kind) else "-h1"))
     goaway = None
     for p in world.pipes:
@@ -81,7 +82,8 @@ def judge(case, run, world, callers):
                 if len(tx) == 1 or out["exc"] is not None:
                     vio.append(V(P, "refused-not-resent", f"{what}: GOAWAY(last_stream_id={goaway and goaway['last']}) refused stream {tx[0][1]} carrying {tok} - the "
                                  f"server provably did not process it - but the call was not transparently re-sent: {len(tx)} transmission(s), outcome "
-                                 f"{out['exc']['type'] if out['exc'] else out.get('status')}", **base))
+                                 f"{out['exc']['type'] if out['exc'] else out.get('status')}" + (f" raised in {out['exc'].get('inner')}" if out["exc"] else ""),
+                                 site=(out["exc"] or {}).get("inner"), **base))
             if out is not None and out["exc"] is None and tx:
                 # success: the response must come from a transmission that completed
                 if not any(t[3] is not None and t[3].get("complete") for t in tx):
@@ -136,7 +138,7 @@ def h2_events(kind, ctx, shape):
 def enum_cases(tier):
     cases = []
     for kind in KINDS:
-        for ctx in CONTEXTS:
+        for ctx in CONTEXTS + (["reader-first"] if is_h2(kind) else []):
             for shape in SHAPES:
                 elig, _ = c05.base_counts(kind, ctx, shape)
                 for retries in (0, 2):
@@ -155,6 +157,11 @@ def enum_cases(tier):
                             for act in acts:
                                 cases.append({"kind": kind, "context": ctx, "shape": shape, "retries": 0,
                                               "h2": {"script": [{"when": {"event": ev, "n": k}, "do": [act]}]}})
+                                if shape == "post2" and ev in ("headers", "data"):
+                                    # the same action, seen by the client as early as possible: what the server says is delivered and read
+                                    # before the upload's next write (the fair schedule finishes all writes first)
+                                    cases.append({"kind": kind, "context": ctx, "shape": shape, "retries": 0, "policy": "reads-first",
+                                                  "h2": {"script": [{"when": {"event": ev, "n": k}, "do": [act]}]}})
     return cases
 
 
